@@ -363,6 +363,31 @@ def check_item_contract(chk, prog, env, model):
                                   'material stored', item_n, item_bad, floor=20)
 
 
+def set_state_writers(prog):
+    """externally visible functions that take a jwk_set_t * and can (transitively) write its error flag or message: found by effects"""
+    import effects
+    eff = effects.Effects(prog)
+    out = []
+    for key, info in sorted(eff.funcs.items()):
+        if key[0] not in (UNIT, 'libjwt/jwks-curl.c'):
+            continue
+        decl = info['decl']
+        if decl.get('storageClass') == 'static':
+            continue
+        params = [c for c in decl.get('inner', ()) if c.get('kind') == 'ParmVarDecl']
+        idx = None
+        for i, p_ in enumerate(params):
+            t = p_.get('type', {}).get('qualType', '')
+            if 'jwk_set_t' in t and '*' in t and '**' not in t:
+                idx = i
+        if idx is None:
+            continue
+        seen, _ = eff.reachable([key])
+        if any(('jwk_set', f) in eff.funcs[k]['stores'] for k in seen if k in eff.funcs for f in ('error', 'error_msg')):
+            out.append((key[1], ['*' in p_.get('type', {}).get('qualType', '') for p_ in params], idx))
+    return out
+
+
 def loaders_pass(chk, prog, env, model):
     """the loaders with jwk_process_one summarised: memory rules (leak / wrong family / use after release) and the shape of the result"""
     total = 0
@@ -378,14 +403,65 @@ def loaders_pass(chk, prog, env, model):
         st.mem[(o, 'error')] = Term(('itemerr',))
         st.trace.append(('api', 'jwk_process_one', Ref(o), [], None))
         return [(st, Ref(o))]
-    entries = [('jwks_load_strn', lambda st: [NULL, Term(('text',), ptr=True), Term(('len',))]),
-               ('jwks_load_strn', lambda st: [Ref(existing_set(st)), Term(('text',), ptr=True), Term(('len',))]),
-               ('jwks_load', lambda st: [NULL, Term(('text',), ptr=True)]),
-               ('jwks_create', lambda st: [Term(('text',), ptr=True)]),
-               ('jwks_create', lambda st: [NULL]),
-               ('jwks_load_fromfile', lambda st: [NULL, Term(('file',), ptr=True)]),
-               ('jwks_load_fromfp', lambda st: [Ref(existing_set(st)), Term(('fp',), ptr=True)])]
-    for entry, mk in entries:
+    # The error state of a set object is part of the input of every later call on it.  The reachable abstract states (flag x message
+    # empty/non-empty) are computed as a closure: start from a clean set, run every function that can write the set's error state
+    # (found by the effect analysis, not by name) from every state reached so far, add the states seen at their exits.
+    CLEAN = (0, 'empty')
+    states = [CLEAN]
+    closure_log = []
+
+    def in_state(st, es):
+        o = ('obj', 'set')
+        st.mem[(o, 'error')] = Int(es[0])
+        st.mem[(o, 'error_msg#')] = es[1]
+        return o
+    fixed = [('jwks_load_strn', lambda st, es: [NULL, Term(('text',), ptr=True), Term(('len',))], False),
+             ('jwks_load_strn', lambda st, es: [Ref(in_state(st, es)), Term(('text',), ptr=True), Term(('len',))], True),
+             ('jwks_load', lambda st, es: [NULL, Term(('text',), ptr=True)], False),
+             ('jwks_load', lambda st, es: [Ref(in_state(st, es)), Term(('text',), ptr=True)], True),
+             ('jwks_create', lambda st, es: [Term(('text',), ptr=True)], False),
+             ('jwks_create', lambda st, es: [NULL], False),
+             ('jwks_load_fromfile', lambda st, es: [NULL, Term(('file',), ptr=True)], False),
+             ('jwks_load_fromfp', lambda st, es: [Ref(in_state(st, es)), Term(('fp',), ptr=True)], True)]
+    writers = set_state_writers(prog)
+    known = set(e[0] for e in fixed)
+    for name, nparams, idx in writers:
+        if name in known:
+            continue
+
+        def mk(st, es, nparams=nparams, idx=idx):
+            return [Ref(in_state(st, es)) if i == idx else Term(('arg', i), ptr=ptr) for i, ptr in enumerate(nparams)]
+        fixed.append((name, mk, True))
+    entries = []
+    done = set()
+    work = [CLEAN]
+    runs = []       # (entry, mk, state)
+    for entry, mk, uses_set in fixed:
+        if not uses_set:
+            runs.append((entry, mk, CLEAN))
+    def exits_of(it, res, args):
+        out = set()
+        for s_, rv in res:
+            for cand in ([rv] if isinstance(rv, Ref) else []) + [a for a in args if isinstance(a, Ref)]:
+                if (cand.loc, 'error') in s_.mem or (cand.loc, 'error_msg#') in s_.mem or cand.loc in s_.zero:
+                    fl = flag_of(s_, cand.loc)
+                    ms = msg_state(it, s_, cand.loc, 'error_msg')
+                    for f_ in ((0, 1) if fl is None else (1 if fl else 0,)):
+                        for m_ in (('empty', 'nonempty') if ms == 'unknown' else (ms,)):
+                            out.add((f_, m_))
+        return out
+    while runs or work:
+        if not runs:
+            es = work.pop()
+            if es in done:
+                continue
+            done.add(es)
+            for entry, mk, uses_set in fixed:
+                if uses_set:
+                    runs.append((entry, mk, es))
+            continue
+        entry, mk0, es = runs.pop(0)
+        mk = lambda st, mk0=mk0, es=es: mk0(st, es)
         prog.func(UNIT, entry)
         rule = JwkRule(env)
         it = Interp(prog, UNIT, model=model, rule=rule, budget=600000,
@@ -394,6 +470,11 @@ def loaders_pass(chk, prog, env, model):
         H.bind_provider(st, H.providers(prog)[0])
         args = mk(st)
         res = it.run(entry, args, st)
+        new_states = exits_of(it, res, args)
+        closure_log.append('%s from %s -> %s' % (entry, es, sorted(new_states)))
+        for ns in new_states:
+            if ns not in done and ns not in work:
+                work.append(ns)
         viol = list(rule.viol)
         for s, rv in res:
             for k, key, msg, loc in rule.at_exit(it, s, rv):
@@ -411,7 +492,8 @@ def loaders_pass(chk, prog, env, model):
                 if setobj is None or flag_of(s, setobj) != 1 or msg_state(it, s, setobj, 'error_msg') != 'nonempty':
                     shape_bad += 1
                     chk.add(Finding('C07.shape', UNIT, entry, 'non-json-without-set-error',
-                                    'text that is not JSON does not leave the set with an error and a message (returns %r)' % (rv,)))
+                                    'text that is not JSON does not leave the set with an error and a message (returns %r; the set came in with '
+                                    'flag=%d message %s, a state the set API can produce)' % (rv, es[0], es[1])))
             elif loads:
                 if len(adds) != len(made):
                     shape_bad += 1
@@ -425,7 +507,8 @@ def loaders_pass(chk, prog, env, model):
         for k, key, msg, (f, l), fn in memrules.dedupe(viol):
             bad += 1
             chk.add(Finding('C07.memory.' + k, f or UNIT, fn, '%s[%s]' % (k, key), msg, line=l))
-        chk.sample({'entry': entry, 'paths': len(res)})
+        chk.sample({'entry': entry, 'set_state_on_entry': list(es), 'paths': len(res)})
+    chk.coverage['set_error_states'] = {'reachable': sorted(done), 'writers': [w[0] for w in writers], 'runs': closure_log}
     return total, bad, shape_n, shape_bad
 
 
